@@ -20,6 +20,12 @@ pub enum Op {
     Union(usize, usize),
     AddData(usize),
     SetData(usize),
+    /// `add_data` with the identity payload (an empty set): registers the element and leaves the data unchanged.
+    AddEmpty(usize),
+    /// `set_data` with the identity payload: registers the element and clears the set's data.
+    SetEmpty(usize),
+    /// `add_data` with a two-tag payload.
+    AddMulti(usize),
     Find(usize),
     GetData(usize),
     Sets,
@@ -32,6 +38,9 @@ impl Op {
             Op::Union(a, b) => format!("union({a},{b})"),
             Op::AddData(a) => format!("add_data({a})"),
             Op::SetData(a) => format!("set_data({a})"),
+            Op::AddEmpty(a) => format!("add_data({a},{{}})"),
+            Op::SetEmpty(a) => format!("set_data({a},{{}})"),
+            Op::AddMulti(a) => format!("add_data({a},two-tags)"),
             Op::Find(a) => format!("find({a})"),
             Op::GetData(a) => format!("get_data({a})"),
             Op::Sets => "sets()".into(),
@@ -56,6 +65,11 @@ pub fn all_ops(universe: usize) -> Vec<Op> {
         v.push(Op::SetData(a));
     }
     for a in 0..universe {
+        v.push(Op::AddEmpty(a));
+        v.push(Op::SetEmpty(a));
+        v.push(Op::AddMulti(a));
+    }
+    for a in 0..universe {
         v.push(Op::Find(a));
     }
     for a in 0..universe {
@@ -68,6 +82,9 @@ pub fn all_ops(universe: usize) -> Vec<Op> {
 #[derive(Clone, Default)]
 pub struct Model {
     sets: Vec<(BTreeSet<usize>, BTreeSet<u32>)>,
+    /// The element the last operation associated data with (add_data / set_data), if it was such an operation: data
+    /// "associated with" an element exists afterwards, so `get_data` must answer `Some`, even for the identity payload.
+    just_associated: Option<usize>,
 }
 
 impl Model {
@@ -86,6 +103,10 @@ impl Model {
     }
 
     fn apply(&mut self, op: Op, tag: u32) {
+        self.just_associated = match op {
+            Op::AddData(a) | Op::SetData(a) | Op::AddEmpty(a) | Op::SetEmpty(a) | Op::AddMulti(a) => Some(a),
+            _ => None,
+        };
         match op {
             Op::Insert(a) | Op::Find(a) | Op::GetData(a) => {
                 self.touch(a);
@@ -108,6 +129,18 @@ impl Model {
                 let i = self.touch(a);
                 self.sets[i].1 = BTreeSet::from([tag]);
             }
+            Op::AddEmpty(a) => {
+                self.touch(a);
+            }
+            Op::SetEmpty(a) => {
+                let i = self.touch(a);
+                self.sets[i].1 = BTreeSet::new();
+            }
+            Op::AddMulti(a) => {
+                let i = self.touch(a);
+                self.sets[i].1.insert(tag);
+                self.sets[i].1.insert(tag + 100_000);
+            }
             Op::Sets => {}
         }
     }
@@ -119,6 +152,9 @@ fn apply_real(real: &mut Real, op: Op, tag: u32) {
         Op::Union(a, b) => real.union(&a, &b),
         Op::AddData(a) => real.add_data(&a, HashSet::from([tag])),
         Op::SetData(a) => real.set_data(&a, HashSet::from([tag])),
+        Op::AddEmpty(a) => real.add_data(&a, HashSet::new()),
+        Op::SetEmpty(a) => real.set_data(&a, HashSet::new()),
+        Op::AddMulti(a) => real.add_data(&a, HashSet::from([tag, tag + 100_000])),
         Op::Find(a) => {
             let _ = real.find(&a);
         }
@@ -139,6 +175,11 @@ fn compare(real: &Real, model: &Model) -> Option<String> {
     let real_members: BTreeSet<usize> = probe.values().into_iter().collect();
     if model_members != real_members {
         return Some(format!("members differ: real {real_members:?} model {model_members:?}"));
+    }
+    if let Some(a) = model.just_associated {
+        if real.clone().get_data(&a).is_none() {
+            return Some(format!("data absent: get_data({a}) is None right after data was associated with {a}"));
+        }
     }
     // partition and data through find/get_data
     let mut root_of: BTreeMap<usize, usize> = BTreeMap::new();
@@ -209,6 +250,8 @@ fn signature(history: &[Op], what: &str, model_before: &Model) -> String {
     };
     let class = if what.starts_with("panic") {
         "panic"
+    } else if what.starts_with("data absent") {
+        "data-presence"
     } else if what.starts_with("data") || what.starts_with("sets() data") {
         "data"
     } else {
@@ -524,7 +567,13 @@ pub fn handle(req: &J) -> J {
                     let op = match rng.below(10) {
                         0 => Op::Insert(a),
                         1..=3 => Op::Union(a, b),
-                        4 | 5 => Op::AddData(a),
+                        4 => Op::AddData(a),
+                        5 => match rng.below(4) {
+                            0 => Op::AddEmpty(a),
+                            1 => Op::SetEmpty(a),
+                            2 => Op::AddMulti(a),
+                            _ => Op::AddData(a),
+                        },
                         6 => Op::SetData(a),
                         7 => Op::Find(a),
                         8 => Op::GetData(a),
